@@ -783,6 +783,13 @@ func runCLI(args []string) int {
 		fs.Parse(args[1:])
 		return iriCLI(*in, *out)
 	}
+	if args[0] == "dec" {
+		fs := flag.NewFlagSet("dec", flag.ExitOnError)
+		in := fs.String("in", "", "cases (ndjson: {op, a: [...], b: [...]})")
+		out := fs.String("out", "", "results (ndjson)")
+		fs.Parse(args[1:])
+		return decCLI(*in, *out)
+	}
 	if args[0] == "idfmt" {
 		fs := flag.NewFlagSet("idfmt", flag.ExitOnError)
 		in := fs.String("in", "", "candidates (ndjson: {chars: [...]})")
